@@ -13,7 +13,7 @@ Lemma trace_apply : forall g s l, enabled g s l = true ->
   | LBuildOk t o => trace (apply g s l) = OEnd t (RBuilt o) :: trace s /\ ts (apply g s l) t = o /\ built_kind o = true
   | LBuildFail t => trace (apply g s l) = OEnd t RFailed :: trace s /\ ts (apply g s l) t = Failed
   | LDepFailed t d => trace (apply g s l) = OEnd t RDepFailed :: trace s /\ ts (apply g s l) t = DependencyFailed
-  | _ => trace (apply g s l) = trace s \/ exists e, trace (apply g s l) = OErr e :: trace s
+  | _ => trace (apply g s l) = trace s \/ exists e, trace (apply g s l) = OErr e :: trace s /\ failed (apply g s l) = true
   end.
 Proof.
   intros g s l He. destruct l; unfold enabled in He; cbv beta iota in He; cbn [apply]; btrue.
@@ -90,7 +90,7 @@ Proof.
       exfalso. apply tends_In in Ho. destruct (HJ' t) as (_ & _ & HS). unfold shape in HS. rewrite Etr, Ets in HS. cbn in HS.
       rewrite Nat.eqb_refl in HS. pose proof (st_of_completed r0 Hk) as Hc. unfold completed in Hc. apply N.leb_le in Hc.
       destruct (st_of r0); cbn in *; dand; try lia; try contradiction. }
-  destruct l; try (destruct Ht as [Ht|[e Ht]]; rewrite Ht in Hin; [apply Hold; exact Hin | destruct Hin as [Hin|Hin]; [discriminate | apply Hold; exact Hin]]).
+  destruct l; try (destruct Ht as [Ht|[e [Ht _]]]; rewrite Ht in Hin; [apply Hold; exact Hin | destruct Hin as [Hin|Hin]; [discriminate | apply Hold; exact Hin]]).
   - (* LDepFailed *) destruct Ht as [E1 E2]. apply (Hnew t RDepFailed); auto.
   - (* LBuildStart *) rewrite Ht in Hin. destruct Hin as [Hin|Hin]; [discriminate | apply Hold; exact Hin].
   - (* LBuildOk *) destruct Ht as (E1 & E2 & E3). apply (Hnew t (RBuilt o)); auto.
@@ -144,7 +144,7 @@ Proof.
       * destruct (Nat.eqb_spec d t); [subst; rewrite H2 in Hb; discriminate | lia].
   - (* T1 *)
     unfold T1 in *.
-    destruct l; try (destruct Ht as [Ht|[e Ht]]; [rewrite Ht; exact H1 | intros l1 l2 t0 E; eapply (T1_cons_other g s (OErr e)); eauto; discriminate]).
+    destruct l; try (destruct Ht as [Ht|[e [Ht _]]]; [rewrite Ht; exact H1 | intros l1 l2 t0 E; eapply (T1_cons_other g s (OErr e)); eauto; discriminate]).
     + destruct Ht as [E1 _]. intros l1 l2 t0 E. eapply (T1_cons_other g s (OEnd t RDepFailed)); eauto; discriminate.
     + (* LBuildStart t: every dependency is finished and built *)
       unfold enabled in He. btrue.
